@@ -1012,7 +1012,7 @@ namespace BitSerializer::Convert::Utf
 			else if (mStartDataPtr != mEncodedBuffer)
 			{
 				// Squeeze buffer
-				std::memcpy(mEncodedBuffer, mStartDataPtr, mEndDataPtr - mStartDataPtr);
+				std::memmove(mEncodedBuffer, mStartDataPtr, mEndDataPtr - mStartDataPtr);	// the ranges may overlap
 				mEndDataPtr -= mStartDataPtr - mEncodedBuffer;
 				mStartDataPtr = mEncodedBuffer;
 			}
